@@ -128,7 +128,10 @@ func (g *vG) reference(in map[string]any, maxSteps int, log *vLog, d *vDecider) 
 	}
 }
 
-func c01Check(g *vG, maxSteps int, useStream bool) {
+func c01Check(g *vG, maxSteps int, useStream bool) { c01CheckRT(g, maxSteps, 0, useStream) }
+
+// runtimeLimit > 0: the call passes WithRuntimeMaxSteps(runtimeLimit), which replaces the compiled limit for that run
+func c01CheckRT(g *vG, maxSteps int, runtimeLimit int, useStream bool) {
 	ctx := context.Background()
 	vcfg("fifo", 1) // completion order is C03's subject; here one fixed order
 	d := &vDecider{g: g, taken: map[int][]int{}, cntR: map[int]int{}, cntM: map[int]int{}}
@@ -146,15 +149,20 @@ func c01Check(g *vG, maxSteps int, useStream bool) {
 	in := map[string]any{"in": vsymInt("x")}
 	var out map[string]any
 	var rerr error
+	var callOpts []Option
+	if runtimeLimit > 0 {
+		callOpts = append(callOpts, WithRuntimeMaxSteps(runtimeLimit))
+		maxSteps = runtimeLimit
+	}
 	if useStream {
-		sr, e := r.Stream(ctx, in)
+		sr, e := r.Stream(ctx, in, callOpts...)
 		if e != nil {
 			rerr = e
 		} else {
 			out, rerr = vDrainMap(sr)
 		}
 	} else {
-		out, rerr = r.Invoke(ctx, in)
+		out, rerr = r.Invoke(ctx, in, callOpts...)
 	}
 	want, werr := g.reference(in, maxSteps, refLog, d)
 	if werr == errRefMaxSteps {
@@ -227,6 +235,15 @@ func VerifC01Cycle() {
 		branches: []vBranch{{"b", []string{"a", END}}}}
 	limit := vrange("limit", 1, 6)
 	c01Check(g, limit, false)
+}
+
+// the same cycle with a per-call step limit (lower or higher than the compiled / default one), Invoke and Stream
+func VerifC01CycleRuntimeLimit() {
+	g := &vG{nodes: []string{"a", "b"}, edges: [][2]string{{START, "a"}, {"a", "b"}},
+		branches: []vBranch{{"b", []string{"a", END}}}}
+	compiled := []int{0, 2, 5}[vchoose("compiled", 3)] // 0: default limit (nodes+10)
+	rt := []int{1, 3, 4, 7, 14}[vchoose("runtime", 5)]
+	c01CheckRT(g, compiled, rt, vchoose("stream", 2) == 1)
 }
 
 func VerifC01CycleFan() {
